@@ -63,7 +63,7 @@ theorem replace_inv_of_gap {f : Forest} (hi : f.Inv) (a b : Nat) (hg : f.textGap
   rename_i hearly
   simp only [Bool.or_eq_true, not_or] at hearly
   obtain ⟨bv, ra⟩ := g.replArgs hi (by simpa using hsc) (by simpa using hancB) hearly.1 hearly.2
-  rw [g.prev nd]
+  rw [g.prev nd, g.next nd]
   simp only
   cases hbt : bv.isText with
   | true =>
